@@ -24,7 +24,7 @@ add('C10', 'product program restricted to Err leaves + capacity sweeps + z3', 'O
 add('C11', 'nested symbolic exploration (completion set) + one z3 coverage query per Partial path', 'Every Partial path condition is covered by the union of the Complete sub-paths of some completion, except the stated UTF-8 deferral.', COMMON_NOTE + ' Completion set Sigma is finite and listed in mirse/props/c11.py.')
 add('C12', 'symbolic execution of every scanner back end (x86 SSE4.2/AVX2, NEON via aarch64 MIR, SWAR 64/32-bit) + z3 over vector-intrinsic models', 'Every scanner stops exactly at the first out-of-class byte for all buffers of length <= L, all 256 values per lane; block functions are decided completely for their width.',
     COMMON_NOTE + ' Intrinsic models follow the vendor pseudocode; NEON results cannot be replayed natively here.')
-add('C13', 'pairwise MIR products across build variants + invariant proof of the runtime-feature cell + z3 validity over the cfg lattice', 'Back-end and profile independence by products on shared symbolic inputs; thread-timing independence as an invariant of the single atomic cell over all CPUs; exactly-one-provider over all cfg assignments.', COMMON_NOTE)
+add('C13', 'pairwise MIR products across build variants + reachable-set (all-interleavings) model of the runtime-feature cell + z3 validity over the cfg lattice', 'Back-end and profile independence by products on shared symbolic inputs (x86-64 word-at-a-time vs runtime dispatch vs compile-time SSE4.2/AVX2 vs no_std; i686 vs the reference); thread-timing independence over ALL interleavings: before every atomic operation the cache cell holds any value of the reachable set (fixpoint over the dispatch code), on all four CPU kinds; exactly-one-provider for every assignment of the cfg atoms.', COMMON_NOTE)
 add('C14', 'product program with all header options symbolic + z3', 'For all 16 (responses) / 4 (requests) option combinations at once, results equal the reference parser parameterised by the same options.', COMMON_NOTE + ' The reference model is part of the trusted base.')
 add('C15', 'two implementation runs (default vs symbolic options) on shared symbolic bytes + z3', 'Default-accepted inputs give the identical result under all 128 configurations (reason modulo the documented strip); other-kind options never change any outcome.', COMMON_NOTE)
 add('C16', 'pairwise products of entry points on shared symbolic inputs', 'All entry-point flavours return equal status, fields and headers; parse_headers agrees with the header part of messages.', COMMON_NOTE)
